@@ -36,7 +36,7 @@ Rec == ndJsonDeserialize(IOEnv.TRACE)
 Ev == Rec[l]
 Keys == 1 .. conf.nk
 NoReal == [on |-> FALSE, units |-> {}, torn |-> {}, memok |-> TRUE, ok |-> TRUE, err |-> "", kv |-> <<>>, len |-> 0, extra |-> 0, now |-> 0,
-           at |-> <<>>, free |-> {}]
+           at |-> <<>>, nb |-> <<>>, free |-> {}]
 NoSnap == [on |-> FALSE, recs |-> <<>>, free |-> <<>>, usage |-> 0, len |-> 0]
 
 (* ---- JSON -> abstract values ---- *)
@@ -181,6 +181,7 @@ TRec == /\ Ev.e = "rec"
                     kv |-> [k \in Keys |-> Ev.res.kv[k]], len |-> Ev.res.len, extra |-> Ev.res.extra,
                     now |-> Ev.now,
                     at |-> [k \in Keys |-> IF Ev.res.ok THEN Ev.res.at[k] ELSE 0],
+                    nb |-> [k \in Keys |-> IF Ev.res.ok THEN Ev.res.nb[k] ELSE 0],
                     free |-> UNION {Ev.res.free[i][1] .. (Ev.res.free[i][1] + Ev.res.free[i][2] - 1)
                                       : i \in 1 .. Len(Ev.res.free)}]
         /\ snap' = NoSnap
@@ -261,13 +262,16 @@ RealCount == (real.on /\ real.ok) => real.len = Cardinality({k \in Keys : real.k
 RealMem == (real.on /\ real.ok) => real.memok
 \* C05: a store obtained by recovery from a crash image is exactly partitioned too
 RealPartition ==
-  (real.on /\ real.ok /\ \A k \in Keys : real.kv[k] >= 0) =>
-    LET live == {k \in Keys : real.kv[k] > 0}
-        ext(k) == real.at[k] .. (real.at[k] + gens[real.kv[k]].n - 1) IN
-    /\ \A k \in live : real.at[k] >= DS /\ real.at[k] + gens[real.kv[k]].n <= DE
+  (real.on /\ real.ok) =>
+    \* every key the recovered store exposes, whether or not its contents could be identified; the
+    \* extent length follows from the key and value lengths the store reports (documented layout)
+    LET live == {k \in Keys : real.kv[k] # 0}
+        ext(k) == real.at[k] .. (real.at[k] + real.nb[k] - 1) IN
+    /\ \A k \in live : real.at[k] >= DS /\ real.at[k] + real.nb[k] <= DE /\ real.nb[k] >= 1
+    /\ \A k \in live : real.kv[k] > 0 => real.nb[k] = gens[real.kv[k]].n
     /\ \A k1, k2 \in live : k1 # k2 => ext(k1) \cap ext(k2) = {}
     /\ \A k \in live : ext(k) \cap real.free = {}
-    /\ (UNION {ext(k) : k \in live}) \cup real.free = Blocks
+    /\ (real.extra = 0) => (UNION {ext(k) : k \in live}) \cup real.free = Blocks
 \* conformance of recovery.rs with the abstract reader (a deviation, not a verdict)
 RecConforms ==
   real.on =>
